@@ -39,6 +39,10 @@ type Result struct {
 	Nil bool        // return a nil message
 	Val *resp.Value // message to return
 	Err string      // non-empty: return this error (together with Val if set)
+	// Odd: a message the public constructors allow but no decoder ever yields:
+	// "nil-array" = redis.NewArrayMessageWithArray(nil); "no-type" = proto.NewMessageWithType(0) with a payload;
+	// "unknown-type" = proto.NewMessageWithType(99); "nil-in-array" = an array message holding a nil element
+	Odd string
 }
 
 // Recorder implements redis.UserCommandHandler and redis.AuthCommandHandler.
@@ -159,6 +163,19 @@ func (r *Recorder) record(conn *redis.Conn, method string, pattern *glob.Glob, a
 	var err error
 	if res.Val != nil && !res.Nil {
 		msg = ToMessage(*res.Val)
+	}
+	switch res.Odd {
+	case "nil-array":
+		msg = redis.NewArrayMessageWithArray(nil)
+	case "no-type":
+		msg = proto.NewMessageWithType(proto.MessageType(0)).SetBytes([]byte("x"))
+	case "unknown-type":
+		msg = proto.NewMessageWithType(proto.MessageType(99)).SetBytes([]byte("x"))
+	case "nil-in-array":
+		arr := proto.NewArray()
+		arr.Append(redis.NewBulkMessage("a"))
+		arr.Append(nil)
+		msg = redis.NewArrayMessageWithArray(arr)
 	}
 	if res.Err != "" {
 		err = errors.New(res.Err)
